@@ -139,7 +139,25 @@ def prove(prop, spec, tier):
     if bad:
         result["ok"] = False
         result["failed"] += ["forbidden token: " + b for b in bad]
+    if tier == "thorough" and result["ok"]:
+        # independent re-check of the compiled files (and everything they depend on) with coqchk, which also reports the
+        # axioms, type-in-type / unsafe-fixpoint / assumed-positivity use of the whole dependency cone
+        mods = " ".join("MDK." + pf[:-2].replace("/", ".") for pf in pfiles)
+        rc, out = sh("coqchk -o -silent -Q . MDK %s" % mods, cwd=COQ, timeout=3000)
+        summ = out[out.find("CONTEXT SUMMARY"):] if "CONTEXT SUMMARY" in out else out[-800:]
+        result["coqchk"] = norm_space(summ)[:600]
+        clean = rc == 0 and all(re.search(re.escape(k) + r"\s*<none>", summ) for k in
+                                ["Axioms:", "relying on type-in-type:", "relying on unsafe (co)fixpoints:", "positivity is assumed:"])
+        if not clean:
+            ax = re.findall(r"^\s*([A-Za-z0-9_.']+)\s*$", summ.split("Axioms:")[1].split("* Constants")[0], re.M) if "Axioms:" in summ else []
+            if rc != 0 or not ax or not all(a.split(".")[-1] in ALLOWED_AXIOMS for a in ax):
+                result["ok"] = False
+                result["failed"].append("coqchk: " + norm_space(summ)[:400])
     return result
+
+
+def norm_space(t):
+    return re.sub(r"\s+", " ", t).strip()
 
 
 # ------------------------------------------------------------------ harness / model
@@ -343,7 +361,7 @@ def run_check(prop, tier, seed, replay=None):
             "checker_cmd": "make -C /verif/coq -j16 %s && coqc Audit_%s.v (Print Assumptions of every theorem in %s)%s" % (
                 pr.get("target", ""), prop, spec["props_file"], " && coqchk -o -silent" if tier == "thorough" else ""),
             "trusted_base": TRUSTED_COMMON + spec.get("trusted_base", []),
-            "theorems": pr.get("assumptions", {}),
+            "theorems": pr.get("assumptions", {}), "coqchk": pr.get("coqchk", "not run (quick tier)"),
             "evaluations": sum(s.get("evaluations", 0) for s in stats_all),
             "distinct_nontrivial": sum(s.get("distinct_nontrivial", 0) for s in stats_all),
             "rule": " || ".join(s.get("rule", "") for s in stats_all),
